@@ -3,7 +3,7 @@ CONSTANTS
   Prefs = {"rsa", "p256", "p384"}
   AgentModes = {"ok", "nolifetime", "refuse", "none"}
   SecondFactors = {"none", "totp", "vip"}
-  AsBuilt = {"AppendsInAgent"}
+  AsBuilt = {"SendsSeedForEd25519"}
   ServerCertifies = {"rsa", "p256", "p384", "ed25519"}
 INVARIANTS NoPrivateOnWire PrivateFilesRestricted OneCertPerLabel OfferedAreCertified
 PROPERTY OtherLabelsKept
